@@ -376,6 +376,29 @@ func programs() []program {
 		}, func() { b.Send(bg, "a") }, func() { b.Send(bg, "b"); cancel() })
 		cancel()
 	})
+	// two senders and a listener that has gone away: the sender that meets it tidies the list up while the other is
+	// on its way through its own view of it
+	add("bus/Send||Send, a cancelled listener first in line and two live ones", func() {
+		b := &minibus.Bus{}
+		c1, cancel1 := context.WithCancel(bg)
+		_ = b.Listen(c1)
+		c2, cancel2 := context.WithCancel(bg)
+		ch2 := b.Listen(c2)
+		c3, cancel3 := context.WithCancel(bg)
+		ch3 := b.Listen(c3)
+		cancel1()
+		par(func() {
+			for i := 0; i < 2; i++ {
+				<-ch2
+			}
+		}, func() {
+			for i := 0; i < 2; i++ {
+				<-ch3
+			}
+		}, func() { b.Send(bg, "a") }, func() { b.Send(bg, "b") })
+		cancel2()
+		cancel3()
+	})
 	add("bus/Listen||Send||cancel", func() {
 		b := &minibus.Bus{}
 		ctx, cancel := context.WithCancel(bg)
